@@ -180,7 +180,7 @@ class CompactFilter:
                 if not is_undefined(r) and r is not None
             ]
 
-        if key is not None:
+        if key is not None and not is_undefined(key):
             try:
                 return [itm for itm in left if _property(itm, key) is not None]
             except TypeError as err:
